@@ -5,3 +5,40 @@
 package truststore
 
 //@ global invariant len(Types) == 3 && Types[0] == TypeCA && Types[1] == TypeSigningAuthority && Types[2] == TypeTSA
+
+//@ pure func certOK(c *x509.Certificate) bool = c.IsCA || sigOK(c, c.SignatureAlgorithm, c.RawTBSCertificate, c.Signature)
+//@ pure func rootCA(c *x509.Certificate) bool = signedBy(c, c) && string(c.RawSubject) == string(c.RawIssuer)
+//@ pure func validType(t Type) bool = t == TypeCA || t == TypeSigningAuthority || t == TypeTSA
+
+//@ func isValidStoreType
+//@ props C13
+//@ ensures[C13.type] result == validType(storeType)
+
+//@ func ValidateCertificates
+//@ props C13
+//@ requires forall(i, 0, len(certs), certs[i] != nil)
+//@ ensures[C13.certs-valid] result == nil ==> len(certs) >= 1 && forall(i, 0, len(certs), certOK(certs[i]))
+//@ loop 1 invariant forall(i, 0, rangeindex+1, certOK(certs[i]))
+
+//@ func isRootCACertificate
+//@ props C13
+//@ requires cert != nil
+//@ ensures[C13.root] (result == nil) == rootCA(cert)
+
+//@ pure func storePath(s *x509TrustStore, t Type, name string) string = sysPath(s.trustStorefs, x509StoreRel(string(t), name))
+//@ pure func realDir(p string) bool = lstatErr(p) == nil && modeIsDir(lstatMode(p)) && bitand(lstatMode(p), fs.ModeSymlink) == 0 && readDirErr(p) == nil
+//@ pure func regularEntry(e fs.DirEntry) bool = !deIsDir(e) && bitand(deType(e), fs.ModeSymlink) == 0
+//@ pure func fromEntry(c *x509.Certificate, p string) bool = exists(i, 0, len(dirEntries(p)), regularEntry(dirEntries(p)[i]) && fileCertsErr(joinPath(p, deName(dirEntries(p)[i]))) == nil && certInFile(c, joinPath(p, deName(dirEntries(p)[i]))))
+
+//@ func (*x509TrustStore).GetCertificates
+//@ props C13
+//@ requires trustStore != nil && trustStore.trustStorefs != nil
+//@ ensures[C13.named-store] result1 == nil ==> validType(storeType) && plainFileName(namedStore) && sysPathErr(trustStore.trustStorefs, x509StoreRel(string(storeType), namedStore)) == nil && realDir(storePath(trustStore, storeType, namedStore))
+//@ ensures[C13.entries-regular] result1 == nil ==> forall(i, 0, len(dirEntries(storePath(trustStore, storeType, namedStore))), regularEntry(dirEntries(storePath(trustStore, storeType, namedStore))[i]) && fileCertsErr(joinPath(storePath(trustStore, storeType, namedStore), deName(dirEntries(storePath(trustStore, storeType, namedStore))[i]))) == nil)
+//@ ensures[C13.provenance] result1 == nil ==> forall(c, 0, len(result), result[c] != nil && fromEntry(result[c], storePath(trustStore, storeType, namedStore)) && certOK(result[c]) && (storeType == TypeTSA ==> rootCA(result[c])))
+//@ ensures[C13.nonempty] result1 == nil ==> len(result) >= 1
+//@ ensures[C13.no-partial] result1 != nil ==> result == nil
+//@ loop 1 invariant forall(i, 0, rangeindex+1, regularEntry(files[i]) && fileCertsErr(joinPath(path, deName(files[i]))) == nil)
+//@ loop 1 invariant forall(c, 0, len(certificates), certificates[c] != nil && fromEntry(certificates[c], path) && certOK(certificates[c]) && (storeType == TypeTSA ==> rootCA(certificates[c])))
+//@ loop 1 invariant newsince(certificates)
+//@ loop 2 invariant forall(c, 0, rangeindex+1, rootCA(certs[c]))
